@@ -1,12 +1,15 @@
 import BoltonsVerif.Common
 import BoltonsVerif.C15.Model
 import BoltonsVerif.C15.Session
+import BoltonsVerif.C15.B64
 /-
 C15 line protocol.  One line = one call:
 
     <inst> <fn> <start> <stop> <count> <factor> <jitter> <take> <draws>
 
-  inst    `F` = Float instance (IEEE double, bit for bit), `Q` = Rat instance (exact)
+  inst    `F` = Float instance (IEEE double, bit for bit), `Q` = Rat instance (exact),
+          `D` = B64 instance (the natural-number model of non-negative binary64 arithmetic the
+          `b64_*` theorems are about; parameters must be finite with a clear sign bit)
   fn      `I` = backoff_iter, `L` = backoff
   start, stop, factor, jitter, draws   doubles as 16 hex digits (big-endian bit pattern);
           draws = comma separated scripted `random.random()` results, `-` = none
@@ -243,11 +246,19 @@ def parseFloat (s : String) : Option Float := (hex64? s).map Float.ofBits
 def parseRat (s : String) : Option Rat := (hex64? s).bind ratOfBits
 def floatToRat (x : Float) : Option Rat := ratOfBits x.toBits
 
+/-- `D` instance: finite non-negative doubles only -/
+def parseB64 (s : String) : Option B64 :=
+  (hex64? s).bind fun b => if b.toNat < B64.INF then some ⟨b.toNat⟩ else none
+def showB64 (x : B64) : String := toHex64 (UInt64.ofNat x.bits)
+def b64ToRat (x : B64) : Option Rat := ratOfBits (UInt64.ofNat x.bits)
+
 def handleCase (inst fn start stop count factor jitter take draws : String) (observed : Option String) : String :=
   if inst = "F" then
     runCase (α := Float) parseFloat showFloat floatToRat true fn start stop count factor jitter take draws observed
   else if inst = "Q" then
     runCase (α := Rat) parseRat showRat some false fn start stop count factor jitter take draws observed
+  else if inst = "D" then
+    runCase (α := B64) parseB64 showB64 b64ToRat true fn start stop count factor jitter take draws observed
   else "bad-op"
 
 def handle (line : String) : String :=
@@ -255,6 +266,7 @@ def handle (line : String) : String :=
   | ["S", inst, ops] =>
     if inst = "F" then runSession (α := Float) parseFloat showFloat floatToRat true ops
     else if inst = "Q" then runSession (α := Rat) parseRat showRat some false ops
+    else if inst = "D" then runSession (α := B64) parseB64 showB64 b64ToRat true ops
     else "bad-op"
   | _ =>
   match words line with
